@@ -7,6 +7,7 @@ git -C /repo diff --quiet || { echo "/repo is dirty"; exit 9; }
 git -C /repo apply "$P" || { echo "PATCH DOES NOT APPLY"; exit 3; }
 cd /verif && ./check "$TIER" "$PROP" > /tmp/try_mutant.$$.log 2>&1; RC=$?
 git -C /repo checkout -- .
+( cd /verif && ./check build >/dev/null 2>&1 )
 grep -E "^VIOLATION|^violation|^KNOWN|HARNESS" /tmp/try_mutant.$$.log | head -8
 echo "check exit: $RC"
 rm -f /tmp/try_mutant.$$.log
